@@ -7,6 +7,7 @@ import (
 	"sort"
 	"strings"
 	"sync"
+	"sync/atomic"
 
 	restful "github.com/emicklei/go-restful/v3"
 
@@ -242,6 +243,10 @@ type corsPair struct {
 	cors                    restful.CrossOriginResourceSharing
 }
 
+// corsDynamic: whether the WebServices of the next pairs enable dynamic routes. Most applications never do; their
+// WebServices hand the framework's internals (Routes()) to whoever asks, so a preflight must leave them as they were.
+var corsDynamic = true
+
 func buildCorsPair(r *core.Rand, router string) *corsPair {
 	p := &corsPair{cfg: genCorsCfg(r), tap: &predTap{calls: map[string]bool{}}}
 	o := commonGenOpts()
@@ -253,7 +258,7 @@ func buildCorsPair(r *core.Rand, router string) *corsPair {
 		s.Routes[0].Method = "OPTIONS"
 	}
 	bo := rt.DefaultBuild(router)
-	bo.Dynamic = true
+	bo.Dynamic = corsDynamic
 	p.with, p.wsWith = rt.BuildWS(p.t, bo)
 	p.cors = p.cfg.build(p.with, p.tap)
 	// a plain handler registered BEFORE the first container filter exists: the filters that are there when a request
@@ -348,10 +353,82 @@ func twoCorsFilters(ctx *core.Ctx, ci int, r *core.Rand, cfg1 *corsCfg) {
 	}
 }
 
+// serviceLevelCors: every WebService of a container has a CORS filter of its own that allows exactly its own front end;
+// three container filters run before them. Requests for all services are in flight at once: the grant a response carries is
+// decided by the filter of the service that was addressed, for the request's own origin, whatever the others are doing.
+func serviceLevelCors(ctx *core.Ctx, ci int, router string) {
+	c := restful.NewContainer()
+	if router == "jsr311" {
+		c.Router(restful.RouterJSR311{})
+	}
+	for k := 0; k < 3; k++ {
+		c.Filter(func(req *restful.Request, resp *restful.Response, chain *restful.FilterChain) {
+			runtime.Gosched()
+			chain.ProcessFilter(req, resp)
+		})
+	}
+	const svcs = 4
+	front := func(i int) string { return fmt.Sprintf("https://front%d.example.org", i) }
+	for i := 0; i < svcs; i++ {
+		ws := new(restful.WebService).Path(fmt.Sprintf("/svc%d", i))
+		cors := restful.CrossOriginResourceSharing{AllowedDomains: []string{front(i)}, CookiesAllowed: i%2 == 0, Container: c}
+		ws.Filter(cors.Filter)
+		i := i
+		ws.Route(ws.GET("/x").Filter(func(req *restful.Request, resp *restful.Response, chain *restful.FilterChain) {
+			resp.AddHeader("X-Route-Of", fmt.Sprint(i))
+			chain.ProcessFilter(req, resp)
+		}).To(func(req *restful.Request, resp *restful.Response) { resp.Write([]byte(fmt.Sprint("svc", i))) }))
+		c.Add(ws)
+	}
+	var stop int32
+	var wg sync.WaitGroup
+	for g := 0; g < 8; g++ {
+		wg.Add(1)
+		go func(g int) {
+			defer wg.Done()
+			for n := 0; n < 120 && atomic.LoadInt32(&stop) == 0; n++ {
+				i, j := (g+n)%svcs, (g/2+n/3)%svcs
+				req := corsReq("GET", fmt.Sprintf("/svc%d/x", i), front(j), "", "")
+				out := rt.Run(c, rt.Dispatch, &req)
+				ctx.Eval(1)
+				ctx.Count("concurrent_requests_through_service_level_cors_filters", 1)
+				ac := acHeaders(out.Rec.Hdr())
+				doc := map[string]interface{}{"service": i, "origin": front(j), "allowed_origin_of_that_service": front(i), "access_control_headers": ac, "status": out.Status,
+					"body": out.Rec.Body.String(), "route_filter_of": out.Rec.Hdr()["X-Route-Of"], "router": router}
+				bad := ""
+				switch {
+				case out.Panicked:
+					bad = "panic: " + out.Panic
+				case i != j && len(ac) > 0:
+					bad = fmt.Sprintf("service %d allows only %q, the request came from %q, the response carries %v", i, front(i), front(j), ac)
+				case i == j && (len(ac["Access-Control-Allow-Origin"]) != 1 || ac["Access-Control-Allow-Origin"][0] != front(j)):
+					bad = fmt.Sprintf("service %d allows %q: Allow-Origin is %q", i, front(i), ac["Access-Control-Allow-Origin"])
+				case i == j && (len(ac["Access-Control-Allow-Credentials"]) == 1) != (i%2 == 0):
+					bad = fmt.Sprintf("service %d has cookies allowed = %v: Allow-Credentials is %q", i, i%2 == 0, ac["Access-Control-Allow-Credentials"])
+				case out.Status != 200 || out.Rec.Body.String() != fmt.Sprint("svc", i):
+					bad = fmt.Sprintf("GET /svc%d/x answered %d %q", i, out.Status, out.Rec.Body.String())
+				}
+				if bad != "" {
+					if atomic.CompareAndSwapInt32(&stop, 0, 1) {
+						cls := "grant-to-disallowed"
+						if i == j {
+							cls = "grant-of-another-service"
+						}
+						ctx.Violation(ci, "c08:"+cls+":service-level-filters:concurrent", bad, doc)
+					}
+					return
+				}
+			}
+		}(g)
+	}
+	wg.Wait()
+	ctx.Sig("service-level-cors|" + router)
+}
+
 func c08(ctx *core.Ctx) {
 	quietLogs()
 	defer restful.EnableTracing(false)
-	ctx.Rule("generated CORS configurations (0-4 allowed domains +/- the .* wildcard, optional predicate over a fixed set, cookies, exposed headers, max-age, allowed methods/headers) on generated route tables, both routers; origins per allowed entry: exact, case variants, proper prefix/suffix, superstrings (entry.evil.com, evil-entry, x+entry), port/scheme variants, regex look-alikes (. -> x), trailing dot/slash/space/tab, host only, list 'a,a', null, empty, unicode, the request's own Host with either scheme; requests: route hit, other method, 404, OPTIONS with and without Access-Control-Request-Method, a plain handler registered with HandleWithFilter before the first filter; a quarter of the configurations with trace logging on; two CORS filters (container and WebService level) with configurations of their own on one request. Oracle: reference policy; not allowed / no Origin => no Access-Control-* header and complete response + event log equal to a twin container without the filter; allowed => Allow-Origin at most once and byte-equal to Origin, credentials only if configured. Non-trivial = a request carrying an Origin; distinct by (policy verdict, origin mutation kind, request kind, list size, predicate).")
+	ctx.Rule("generated CORS configurations (0-4 allowed domains +/- the .* wildcard, optional predicate over a fixed set, cookies, exposed headers, max-age, allowed methods/headers) on generated route tables, both routers; origins per allowed entry: exact, case variants, proper prefix/suffix, superstrings (entry.evil.com, evil-entry, x+entry), port/scheme variants, regex look-alikes (. -> x), trailing dot/slash/space/tab, host only, list 'a,a', null, empty, unicode, the request's own Host with either scheme; requests: route hit, other method, 404, OPTIONS with and without Access-Control-Request-Method, a plain handler registered with HandleWithFilter before the first filter; a quarter of the configurations with trace logging on; two CORS filters (container and WebService level) with configurations of their own on one request; four WebServices with a CORS filter of their own each (behind three container filters), requests for all of them in flight at once from 8 goroutines. Oracle: reference policy; not allowed / no Origin => no Access-Control-* header and complete response + event log equal to a twin container without the filter; allowed => Allow-Origin at most once and byte-equal to Origin, credentials only if configured. Non-trivial = a request carrying an Origin; distinct by (policy verdict, origin mutation kind, request kind, list size, predicate).")
 	ctx.Assume("predicate results are known from the configuration (fixed case-insensitive set) and cross-checked against a tap on the predicate")
 	configs := ctx.N(400, 80000)
 	for ci := 0; ci < configs; ci++ {
@@ -360,8 +437,12 @@ func c08(ctx *core.Ctx) {
 		}
 		r := ctx.Rand(ci, "cfg")
 		router := routerOf(ci)
+		corsDynamic = ci%3 == 0 // most applications never enable dynamic routes
 		p := buildCorsPair(r, router)
 		ctx.Case(ci, core.JSON(p.cfg)+" table="+core.JSON(p.t))
+		if ci%10 == 5 || ci%10 == 8 {
+			serviceLevelCors(ctx, ci, router)
+		}
 		restful.EnableTracing(ci%8 == 3 || ci%8 == 6) // a quarter of the configurations with trace logging on
 		if ci%5 == 1 || ci%5 == 2 {
 			twoCorsFilters(ctx, ci, r, p.cfg)
@@ -604,6 +685,7 @@ func c09(ctx *core.Ctx) {
 		}
 		r := ctx.Rand(ci, "cfg")
 		router := routerOf(ci)
+		corsDynamic = (ci/2)%2 == 0 // the configurations whose routes change between two passes need dynamic routes; the others are static
 		p := buildCorsPair(r, router)
 		// every preflight needs an allowed origin
 		origin := "http://example.com"
@@ -818,7 +900,7 @@ func c09(ctx *core.Ctx) {
 
 func rebuildCorsPair(p *corsPair, router string) *corsPair {
 	bo := rt.DefaultBuild(router)
-	bo.Dynamic = true
+	bo.Dynamic = corsDynamic
 	p.with, p.wsWith = rt.BuildWS(p.t, bo)
 	p.cors = p.cfg.build(p.with, p.tap)
 	p.with.HandleWithFilter("/hwf-early/", http.HandlerFunc(hwfEarly))
@@ -831,7 +913,7 @@ func rebuildCorsPair(p *corsPair, router string) *corsPair {
 // (it then asks restful.DefaultContainer for the routable methods), registered with restful.Filter / restful.Add.
 func onDefaultContainer(p *corsPair, router string) *corsPair {
 	bo := rt.DefaultBuild(router)
-	bo.Dynamic = true
+	bo.Dynamic = corsDynamic
 	bo.Default = true
 	restful.DefaultContainer.Router(restful.CurlyRouter{})
 	if router == "jsr311" {
